@@ -601,6 +601,19 @@ inductive Out where
   | unsupported (why : String)
 deriving Repr
 
+/-- classified rows ↦ the bind elements, in document order -/
+def bindsOfRows (root : Str) (ks : List RK) : Out :=
+  let names := (ks.flatMap rkNames).map lowerAscii
+  if !(decide names.Nodup) || names.any (reservedNames root).contains then .unsupported "names not unique" else
+  if emptySection false ks then .unsupported "empty group" else
+  if !triggersOK (visibleTops 0 ks) ks then .unsupported "trigger target" else
+  match walk root [] ks with
+  | none => .unsupported "unbalanced begin/end"
+  | some es =>
+    match renderAll root (topNames 0 ks) (es ++ [instanceID root]) with
+    | none => .unsupported "reference or value outside the fragment"
+    | some bs => .ok bs
+
 /-- survey header row + raw rows ↦ the bind elements, in document order -/
 def formBinds (root dl : Str) (lists : List Str) (headers : List Str) (rows : List (List (Str × Str))) : Out :=
   if !(headers.all isAscii) then .unsupported "non-ASCII header" else
@@ -611,17 +624,7 @@ def formBinds (root dl : Str) (lists : List Str) (headers : List Str) (rows : Li
     if !(key.any fun kt => kt.2.head? = some "type".toList) then .unsupported "no type column" else
     match processRows dl key lists 2 rows with
     | .error w => .unsupported w
-    | .ok ks =>
-      let names := (ks.flatMap rkNames).map lowerAscii
-      if !(decide names.Nodup) || names.any (reservedNames root).contains then .unsupported "names not unique" else
-      if emptySection false ks then .unsupported "empty group" else
-      if !triggersOK (visibleTops 0 ks) ks then .unsupported "trigger target" else
-      match walk root [] ks with
-      | none => .unsupported "unbalanced begin/end"
-      | some es =>
-        match renderAll root (topNames 0 ks) (es ++ [instanceID root]) with
-        | none => .unsupported "reference or value outside the fragment"
-        | some bs => .ok bs
+    | .ok ks => bindsOfRows root ks
 
 /-! ## Spec: what C05 demands of one row's bind (a finite map, stated by lookup) -/
 
